@@ -54,3 +54,4 @@ func verifSetNow(ns int64)
 func verifEngineOnly()
 func verifNote(s string)
 func verifAt(b []byte, i int) uint8
+func verifAtU32(s []uint32, i int) uint32
